@@ -980,8 +980,25 @@ def pool2_random(rng, n, length):
             yield seq, stack
 
 
+FMT_NAMES = ["{\\'E}douard Masterly", "Jan {\\'o}s Beethoven", "{\\AA} Bo Carl Dahl", "Jean-Paul Sartre", "Hans{-}Peter Karl Schmidt",
+             "Charles Louis Xavier Joseph de la Vall{\\'e}e Poussin", "{Barnes and Noble} Inc", "de la Fontaine, Jr, Jean", "AA BB",
+             "A B C D", "{\\oe}x y Z", "von Last", "{\\'{E}}d {\\'o}s {\\o}l Xi", "ab cd Ef", "{ab} {c} Def", "a~b c D"]
+FMT_FORMATS = ["{f.~}{vv~}{ll}{, jj}", "{ff~}{vv~}{ll}{, jj}", "{vv~}{ll}{, jj}{, f.}", "{f{}}{l{}}", "{ff }{vv }{ll}", "{ll~}{f.}",
+               "{vv~~}{ll}", "{f.}{v.}{l.}", "{ff~}{ll}", "{l~}{f~}", "{ff{-}}{ll}"]
+
+
+def format_name_family():
+    """format.name$ on names whose SHORT parts carry braces / special characters (the tie rule counts text characters, not raw ones),
+    hyphens inside and outside braces, von and Jr parts, with formats that tie, abbreviate and give explicit separators"""
+    out = []
+    for n in FMT_NAMES:
+        for f in FMT_FORMATS:
+            out.append(mk('"%s" #1 "%s" format.name$' % (n, f), [S], 'fmtname'))
+    return out
+
+
 def gen_cases(tier, rng, info):
-    cases = list(while_family())      # first: its well-typed programs are the failing input to report for a change of the loop condition
+    cases = list(while_family()) + format_name_family()      # first: its well-typed programs are the failing input to report for a change of the loop condition
     maxlen = 2 if tier == 'quick' else 3
     na = 0
     for body, types in assign_sequences(2 if tier == 'quick' else 3):
